@@ -83,7 +83,7 @@ def cache_dir():
 # ------------------------------------------------------------------------- build flags
 def repo_flags():
     """compile flags of the real build (from build.ninja when present)"""
-    inc = ['-I%s/libzwerg' % REPO]
+    inc = ['-I%s/libzwerg' % REPO, '-I%s' % REPO]
     defs = ['-DNDEBUG']
     bn = os.path.join(REPO, '_build', 'build.ninja')
     std = '-std=c++14'
